@@ -544,6 +544,15 @@ func (t *Task) load(
 	if len(first.Header.Parent) == 32 && !bytes.Equal(localHash, first.Header.Parent) {
 		return nil, ErrReorg
 	}
+	// The partitions are fetched independently of one another.
+	// If the chain changed in between, their blocks do not
+	// link up and the whole range has to be loaded again.
+	for i := 1; i < len(blocks); i++ {
+		prev, curr := blocks[i-1], blocks[i]
+		if len(curr.Header.Parent) == 32 && !bytes.Equal(curr.Header.Parent, prev.Hash()) {
+			return nil, fmt.Errorf("loading blocks: %d is not the parent of %d", prev.Num(), curr.Num())
+		}
+	}
 	slog.DebugContext(ctx, "load",
 		"n", last.Num(),
 		"h", fmt.Sprintf("%.4x", last.Hash()),
